@@ -27,6 +27,10 @@ type (
 		Cat  string      `json:"cat"`  // filter | resilience | object
 		Kind string      `json:"kind"` // registered kind the generator aimed at (doc.kind may differ)
 		Doc  interface{} `json:"doc"`  // raw document tree (what the user would write as YAML)
+		// Doc2: a variant of Doc (one mutation) for the UPDATE path: when the real validation accepts it and an
+		// instance built from it alone serves the requests, a further generation is built from it and
+		// inherits from the running instance. null = only the same-spec update is exercised.
+		Doc2 interface{} `json:"doc2"`
 		Reqs []Req       `json:"reqs"`
 		// Orc are oracle tables for functions the Coq model does not compute
 		// (format checkers, schema patterns, time.ParseDuration, first matching
@@ -172,6 +176,7 @@ func UnmarshalIn(b []byte) (*In, error) {
 		Cat  string          `json:"cat"`
 		Kind string          `json:"kind"`
 		Doc  json.RawMessage `json:"doc"`
+		Doc2 json.RawMessage `json:"doc2"`
 		Reqs []Req           `json:"reqs"`
 	}
 	if err := json.Unmarshal(b, &raw); err != nil {
@@ -181,7 +186,13 @@ func UnmarshalIn(b []byte) (*In, error) {
 	if err != nil {
 		return nil, err
 	}
-	return &In{Cat: raw.Cat, Kind: raw.Kind, Doc: doc, Reqs: raw.Reqs}, nil
+	in := &In{Cat: raw.Cat, Kind: raw.Kind, Doc: doc, Reqs: raw.Reqs}
+	if len(raw.Doc2) > 0 && string(raw.Doc2) != "null" {
+		if d2, err := ParseJSONTree(raw.Doc2); err == nil {
+			in.Doc2 = d2
+		}
+	}
+	return in, nil
 }
 
 func walkStrings(x interface{}, f func(string)) {
@@ -208,6 +219,9 @@ func walkStrings(x interface{}, f func(string)) {
 		f(fmt.Sprint(v))
 	}
 }
+
+// CloneTree copies a document tree.
+func CloneTree(x interface{}) interface{} { return cloneTree(x) }
 
 func cloneTree(x interface{}) interface{} {
 	switch v := x.(type) {
